@@ -119,6 +119,30 @@ CRASH = {
              'java.lang.AssertionError: assertion failed\n'
              '\tat dotty.tools.dotc.typer.Typer.typedUnadapted(Typer.scala:2900)\n',
 }
+# further shapes of a compiler-internal stack trace (index 0 is CRASH[lang]): an exception escaping main, an
+# exception type outside java.lang whose trace only passes through java.lang frames, a wrapped exception
+CRASH_VARIANTS = {
+    'java': [CRASH['java'],
+             'Exception in thread "main" java.lang.StackOverflowError\n'
+             '\tat jdk.compiler/com.sun.tools.javac.comp.Attr.visitSelect(Attr.java:4136)\n'
+             '\tat jdk.compiler/com.sun.tools.javac.tree.JCTree$JCFieldAccess.accept(JCTree.java:2414)\n',
+             'An exception has occurred in the compiler (17.0.1). Please file a bug against the Java compiler.\n'
+             'com.sun.tools.javac.code.Symbol$CompletionFailure: class file for p.Q not found\n'
+             '\tat jdk.compiler/com.sun.tools.javac.comp.Check.checkCompatibleSupertypes(Check.java:2910)\n'
+             '\tat java.base/java.lang.Iterable.forEach(Iterable.java:75)\n'
+             '\tat jdk.compiler/com.sun.tools.javac.main.Main.compile(Main.java:317)\n',
+             'An exception has occurred in the compiler (17.0.1). Please file a bug against the Java compiler.\n'
+             'com.sun.tools.javac.util.ClientCodeException: java.lang.IllegalStateException\n'
+             '\tat jdk.compiler/com.sun.tools.javac.api.ClientCodeWrapper.wrap(ClientCodeWrapper.java:130)\n'
+             'Caused by: java.lang.IllegalStateException\n'
+             '\tat jdk.compiler/com.sun.tools.javac.comp.Attr.attribTree(Attr.java:700)\n'],
+    'kotlin': [CRASH['kotlin'],
+               'exception: java.lang.IllegalStateException: Backend Internal error\n'
+               'Caused by: org.jetbrains.kotlin.codegen.CompilationException: Back-end (JVM) Internal error\n'
+               '\tat org.jetbrains.kotlin.codegen.ExpressionCodegen.genQualified(ExpressionCodegen.java:339)\n'],
+    'groovy': [CRASH['groovy']],
+    'scala': [CRASH['scala']],
+}
 GROOVY_STACKOVERFLOW = 'Exception in thread "main" java.lang.StackOverflowError\n'
 
 
@@ -180,6 +204,8 @@ def render(lang, files, order, variant, with_summary, with_notes, crash, end_new
         out = CRASH[lang] + out
     elif crash == 'stackoverflow':
         out = GROOVY_STACKOVERFLOW + out
+    elif crash and crash.startswith('trace:'):
+        out = out + CRASH_VARIANTS[lang][int(crash[6:])]
     if not end_newline:
         out = out.rstrip('\n')
     return out, {'errors': truth, 'diags': headers, 'nerr': nerr}
